@@ -2,3 +2,4 @@ import SqlcModel.Props.C14
 import SqlcModel.Props.C09
 import SqlcModel.Props.C08
 import SqlcModel.Props.C17
+import SqlcModel.Props.C04
